@@ -232,6 +232,193 @@ Example function_from_yaml_examples :
 Proof. vm_compute. repeat split. Qed.
 
 (* ====================================================================== *)
+(* 3. GroupConfigContract.from_yaml, GroupConfig.from_yaml                   *)
+(* ====================================================================== *)
+Definition E_c_no_name := EInvalid "contract name is not given".
+Definition E_c_absent := EInvalid "Contract name: {}\n\nFollowing Required fields are absent: {}".
+Definition E_c_type := EInvalid "Contract name: {}\n Invalid contract type: {}".
+(* the message of the re-raised exception: the handler's prefix followed by the message of the caught one *)
+Definition E_c_fn_no_name := EInvalid "Contract name: {}\nfunction name is not given".
+Definition E_c_fn_absent := EInvalid "Contract name: {}\nFunction name: {}\n\nFollowing Required fields are absent: {}".
+Definition E_c_fn_block := EInvalid "Contract name: {}\nFunction name: {}\nIncorrect block id in dispatch path: {}".
+Definition contract_required : list string := ["file_path"; "type"; "version"; "subroutines"; "functions"].
+
+Definition required_loop_body (contract : list (string * yv)) (st : list string) (field : string) : rs (list string) :=
+  let absent_fields := st in
+  rbind (if (negb (sdict_mem field contract)) then let absent_fields := absent_fields ++ [field] in Ok absent_fields else Ok absent_fields)
+        (fun (st : list string) => let absent_fields := st in Ok absent_fields).
+
+Definition functions_loop_body (st : list GroupConfigFunction) (function : list (string * yv)) : rs (list GroupConfigFunction) :=
+  let parsed_functions := st in
+  rbind (try_reraise_invalid "Contract name: {}\n" (
+    rbind (GroupConfigFunction_from_yaml_gen function) (fun f => let parsed_functions := parsed_functions ++ [f] in Ok parsed_functions)))
+    (fun (st : list GroupConfigFunction) => Ok st).
+
+(* conversion: the generated reader is this text (an edit of the Python breaks this lemma) *)
+Lemma contract_from_yaml_unfold : forall contract,
+  GroupConfigContract_from_yaml_gen contract =
+  if negb (sdict_mem "name" contract) then Raise E_c_no_name else
+  rbind (sdict_get "name" contract) (fun v0 => rbind (as_str v0) (fun name =>
+  rbind (foldE (required_loop_body contract) contract_required []) (fun absent_fields =>
+  if (match absent_fields with [] => false | _ => true end) then Raise E_c_absent else
+  rbind (sdict_get "file_path" contract) (fun v1 => rbind (as_str v1) (fun file_path =>
+  rbind (sdict_get "type" contract) (fun v2 => rbind (as_str v2) (fun contract_type =>
+  rbind (sdict_get "version" contract) (fun v3 => rbind (as_int v3) (fun version =>
+  rbind (sdict_get "subroutines" contract) (fun v4 => rbind (as_list_of as_str v4) (fun subroutines =>
+  if negb (s_in_list contract_type GROUP_CONFIG_CONTRACT_TYPES) then Raise E_c_type else
+  rbind (sdict_get "functions" contract) (fun v5 => rbind (as_list_of as_map v5) (fun functions =>
+  rbind (foldE functions_loop_body functions []) (fun parsed_functions =>
+  Ok (mkGroupConfigContract name file_path contract_type version subroutines parsed_functions))))))))))))))).
+Proof. intros contract. reflexivity. Qed.
+
+(* the inline required-field loop is check_fields_are_present on the five names *)
+Lemma required_loop_eq : forall contract req acc,
+  foldE (required_loop_body contract) req acc = Ok (acc ++ filter (fun f => negb (sdict_mem f contract)) req).
+Proof. intros contract req acc. exact (check_fields_loop contract req acc). Qed.
+
+(* the try / except around GroupConfigFunction.from_yaml: the first function that is refused ends the loop with the
+   contract's prefix before its message; every other exception passes unchanged *)
+Fixpoint functions_spec (fs : list (list (string * yv))) : rs (list GroupConfigFunction) :=
+  match fs with
+  | [] => Ok []
+  | m :: t => rbind (try_reraise_invalid "Contract name: {}\n" (GroupConfigFunction_from_yaml_gen m)) (fun f => rbind (functions_spec t) (fun r => Ok (f :: r)))
+  end.
+
+Lemma functions_loop_eq : forall fs acc,
+  foldE functions_loop_body fs acc = rbind (functions_spec fs) (fun r => Ok (acc ++ r)).
+Proof.
+  induction fs as [|m t IH]; intros acc; cbn [foldE functions_spec rbind].
+  - rewrite app_nil_r. reflexivity.
+  - unfold functions_loop_body at 1. destruct (GroupConfigFunction_from_yaml_gen m) as [f|e]; cbn [rbind try_reraise_invalid].
+    + rewrite IH. destruct (functions_spec t) as [r|e]; cbn [rbind]; [rewrite <- app_assoc|]; reflexivity.
+    + destruct e; reflexivity.
+Qed.
+
+(* ---- the canonical YAML of a configuration record reads back *)
+Definition yaml_of_contract (c : GroupConfigContract) : list (string * yv) :=
+  [("name", YStr (cc_name c)); ("file_path", YStr (cc_file_path c)); ("type", YStr (cc_contract_type c)); ("version", YInt (cc_version c));
+   ("subroutines", YList (map YStr (cc_subroutines c))); ("functions", YList (map (fun f => YMap (yaml_of_function f)) (cc_functions c)))].
+Definition function_ok (f : GroupConfigFunction) : bool := forallb is_block_id (cf_dispatch_path f).
+
+Lemma as_all_map_functions : forall fns, as_all as_map (map (fun f => YMap (yaml_of_function f)) fns) = Ok (map yaml_of_function fns).
+Proof. induction fns as [|f t IH]; [reflexivity|]. cbn [map as_all as_map rbind]. rewrite IH. reflexivity. Qed.
+
+Lemma functions_spec_roundtrip : forall fns,
+  functions_spec (map yaml_of_function fns) = if forallb function_ok fns then Ok fns else Raise E_c_fn_block.
+Proof.
+  induction fns as [|f t IH]; [reflexivity|]. cbn [map functions_spec forallb]. rewrite function_from_yaml_roundtrip. fold (function_ok f).
+  destruct (function_ok f); cbn [try_reraise_invalid rbind andb]; [|reflexivity].
+  rewrite IH. destruct (forallb function_ok t); reflexivity.
+Qed.
+
+(* for EVERY record c: its canonical YAML is read as c iff the type is listed and every block id is well-formed;
+   otherwise exactly the exception of the first failing check *)
+Theorem contract_from_yaml_roundtrip : forall c,
+  GroupConfigContract_from_yaml_gen (yaml_of_contract c) =
+  if negb (s_in_list (cc_contract_type c) GROUP_CONFIG_CONTRACT_TYPES) then Raise E_c_type
+  else if forallb function_ok (cc_functions c) then Ok c else Raise E_c_fn_block.
+Proof.
+  intros c. rewrite contract_from_yaml_unfold. rewrite required_loop_eq.
+  replace (filter (fun f => negb (sdict_mem f (yaml_of_contract c))) contract_required) with (@nil string) by reflexivity.
+  rewrite sdict_mem_yfind, !sdict_get_yfind.
+  replace (yfind "name" (yaml_of_contract c)) with (Some (YStr (cc_name c))) by reflexivity.
+  replace (yfind "file_path" (yaml_of_contract c)) with (Some (YStr (cc_file_path c))) by reflexivity.
+  replace (yfind "type" (yaml_of_contract c)) with (Some (YStr (cc_contract_type c))) by reflexivity.
+  replace (yfind "version" (yaml_of_contract c)) with (Some (YInt (cc_version c))) by reflexivity.
+  replace (yfind "subroutines" (yaml_of_contract c)) with (Some (YList (map YStr (cc_subroutines c)))) by reflexivity.
+  replace (yfind "functions" (yaml_of_contract c)) with (Some (YList (map (fun f => YMap (yaml_of_function f)) (cc_functions c)))) by reflexivity.
+  cbn [negb rbind as_str as_int app].
+  assert (Es : as_list_of as_str (YList (map YStr (cc_subroutines c))) = Ok (cc_subroutines c)) by (apply as_list_of_str_ok; reflexivity).
+  rewrite Es. cbn [rbind]. destruct (s_in_list (cc_contract_type c) GROUP_CONFIG_CONTRACT_TYPES); cbn [negb]; [|reflexivity].
+  unfold as_list_of at 1. cbn [as_list rbind]. rewrite as_all_map_functions. cbn [rbind].
+  rewrite functions_loop_eq, functions_spec_roundtrip.
+  destruct (forallb function_ok (cc_functions c)); cbn [rbind app]; [destruct c; reflexivity | reflexivity].
+Qed.
+
+Definition ex_contract_yaml (ty : string) (fns : yv) : list (string * yv) :=
+  [("name", YStr "app"); ("file_path", YStr "a.teal"); ("type", YStr ty); ("version", YInt 6); ("subroutines", YList [YStr "sub"]); ("functions", fns)].
+Definition ex_fn_yaml (blk : string) : yv := YMap [("name", YStr "f"); ("dispatch_path", YList [YStr "B0"; YStr blk])].
+
+Example contract_from_yaml_examples :
+  GroupConfigContract_from_yaml_gen (ex_contract_yaml "ApprovalProgram" (YList [ex_fn_yaml "B1"]))
+    = Ok (mkGroupConfigContract "app" "a.teal" "ApprovalProgram" 6 ["sub"] [mkGroupConfigFunction "f" ["B0"; "B1"]])
+  /\ GroupConfigContract_from_yaml_gen [("file_path", YStr "a.teal")] = Raise (EInvalid "contract name is not given")
+  /\ GroupConfigContract_from_yaml_gen [("name", YStr "app"); ("file_path", YStr "a.teal"); ("type", YStr "LogicSig"); ("version", YInt 6); ("functions", YList [])]
+       = Raise (EInvalid "Contract name: {}\n\nFollowing Required fields are absent: {}")
+  /\ GroupConfigContract_from_yaml_gen [("name", YStr "app"); ("type", YStr "LogicSig"); ("version", YInt 6); ("subroutines", YList []); ("functions", YList [])]
+       = Raise (EInvalid "Contract name: {}\n\nFollowing Required fields are absent: {}")
+  /\ GroupConfigContract_from_yaml_gen (ex_contract_yaml "Unknown" (YList [])) = Raise (EInvalid "Contract name: {}\n Invalid contract type: {}")
+  /\ GroupConfigContract_from_yaml_gen (ex_contract_yaml "LogicSig" (YList [ex_fn_yaml "b1"]))
+       = Raise (EInvalid "Contract name: {}\nFunction name: {}\nIncorrect block id in dispatch path: {}")
+  /\ GroupConfigContract_from_yaml_gen (ex_contract_yaml "LogicSig" (YList [YMap [("dispatch_path", YList [])]]))
+       = Raise (EInvalid "Contract name: {}\nfunction name is not given")
+  /\ GroupConfigContract_from_yaml_gen (ex_contract_yaml "LogicSig" (YList [YMap [("name", YStr "f")]]))
+       = Raise (EInvalid "Contract name: {}\nFunction name: {}\n\nFollowing Required fields are absent: {}")
+  /\ GroupConfigContract_from_yaml_gen (ex_contract_yaml "LogicSig" (YList [YMap [("name", YInt 0); ("dispatch_path", YList [])]])) = Raise ETypeError
+  /\ GroupConfigContract_from_yaml_gen (ex_contract_yaml "LogicSig" (YStr "f")) = Raise ETypeError.
+Proof. vm_compute. repeat split. Qed.
+
+(* GroupConfig.from_yaml *)
+Definition E_cfg_absent := EInvalid "Config:\n\nFollowing Required fields are absent: {}".
+
+Lemma config_from_yaml_unfold : forall config,
+  GroupConfig_from_yaml_gen config =
+  rbind (check_fields_are_present_gen ["name"; "contracts"; "groups"] config) (fun absent_fields =>
+  if (match absent_fields with [] => false | _ => true end) then Raise E_cfg_absent else
+  rbind (sdict_get "name" config) (fun name =>
+  rbind (sdict_get "contracts" config) (fun v1 => rbind (as_list v1) (fun l1 =>
+  rbind (foldE (fun (contracts : list GroupConfigContract) (contract : yv) =>
+           rbind (as_map contract) (fun m => rbind (GroupConfigContract_from_yaml_gen m) (fun c => Ok (contracts ++ [c])))) l1 []) (fun contracts =>
+  rbind (sdict_get "groups" config) (fun v2 => rbind (as_list v2) (fun l2 =>
+  rbind (foldE (fun (groups : list GroupConfigGroup) (group : yv) =>
+           rbind (as_map group) (fun m => rbind (GroupConfigGroup_from_yaml_gen m) (fun g => Ok (groups ++ [g])))) l2 []) (fun groups =>
+  rbind (as_str name) (fun n => Ok (mkGroupConfig n contracts groups)))))))))).
+Proof. intros config. reflexivity. Qed.
+
+(* a loop that appends the reading of every member: the readings in order, the first exception ends it *)
+Lemma append_loop_eq {A} (f : list (string * yv) -> rs A) : forall l acc,
+  foldE (fun (st : list A) (v : yv) => rbind (as_map v) (fun m => rbind (f m) (fun a => Ok (st ++ [a])))) l acc
+  = rbind (mapR (fun v => rbind (as_map v) f) l) (fun r => Ok (acc ++ r)).
+Proof.
+  induction l as [|v t IH]; intros acc; cbn [foldE mapR rbind].
+  - rewrite app_nil_r. reflexivity.
+  - destruct (as_map v) as [m|e]; cbn [rbind]; [|reflexivity]. destruct (f m) as [a|e]; cbn [rbind]; [|reflexivity].
+    rewrite IH. destruct (mapR _ t) as [r|e]; cbn [rbind]; [rewrite <- app_assoc|]; reflexivity.
+Qed.
+
+(* for EVERY map: the three fields must be present; contracts and groups are read member by member, in this order *)
+Theorem config_from_yaml_spec : forall config,
+  GroupConfig_from_yaml_gen config =
+  match yfind "name" config, yfind "contracts" config, yfind "groups" config with
+  | Some name, Some cs, Some gs =>
+    rbind (as_list cs) (fun l1 => rbind (mapR (fun v => rbind (as_map v) GroupConfigContract_from_yaml_gen) l1) (fun contracts =>
+    rbind (as_list gs) (fun l2 => rbind (mapR (fun v => rbind (as_map v) GroupConfigGroup_from_yaml_gen) l2) (fun groups =>
+    rbind (as_str name) (fun n => Ok (mkGroupConfig n contracts groups))))))
+  | _, _, _ => Raise E_cfg_absent
+  end.
+Proof.
+  intros config. rewrite config_from_yaml_unfold, check_fields_are_present_eq. cbn [filter]. rewrite !sdict_mem_yfind, !sdict_get_yfind.
+  destruct (yfind "name" config) as [name|], (yfind "contracts" config) as [cs|], (yfind "groups" config) as [gs|]; cbn [negb rbind]; try reflexivity.
+  destruct (as_list cs) as [l1|e]; cbn [rbind]; [|reflexivity].
+  rewrite (append_loop_eq GroupConfigContract_from_yaml_gen). destruct (mapR _ l1) as [contracts|e]; cbn [rbind app]; [|reflexivity].
+  destruct (as_list gs) as [l2|e]; cbn [rbind]; [|reflexivity].
+  rewrite (append_loop_eq GroupConfigGroup_from_yaml_gen). destruct (mapR _ l2) as [groups|e]; cbn [rbind app]; reflexivity.
+Qed.
+
+Example config_from_yaml_examples :
+  GroupConfig_from_yaml_gen [("name", YStr "cfg"); ("contracts", YList [YMap (ex_contract_yaml "LogicSig" (YList [ex_fn_yaml "B1"]))]);
+                             ("groups", YList [YMap [("operation", YStr "op"); ("transactions", YList [YMap [("txn_id", YStr "t0"); ("txn_type", YStr "pay")]])]])]
+    = Ok (mkGroupConfig "cfg" [mkGroupConfigContract "app" "a.teal" "LogicSig" 6 ["sub"] [mkGroupConfigFunction "f" ["B0"; "B1"]]]
+            [mkGroupConfigGroup "op" [mkGroupConfigTransaction "t0" "pay" None None None None None]])
+  /\ GroupConfig_from_yaml_gen [("name", YStr "cfg"); ("contracts", YList [])] = Raise (EInvalid "Config:\n\nFollowing Required fields are absent: {}")
+  /\ GroupConfig_from_yaml_gen [("name", YStr "cfg"); ("contracts", YList [YMap (ex_contract_yaml "Nope" (YList []))]); ("groups", YList [])]
+       = Raise (EInvalid "Contract name: {}\n Invalid contract type: {}")
+  /\ GroupConfig_from_yaml_gen [("name", YStr "cfg"); ("contracts", YList []); ("groups", YList [YMap []])]
+       = Raise (EInvalid "Group:\n\nFollowing Required fields are absent: {}")
+  /\ GroupConfig_from_yaml_gen [("name", YInt 3); ("contracts", YList []); ("groups", YList [])] = Raise ETypeError.
+Proof. vm_compute. repeat split. Qed.
+
+(* ====================================================================== *)
 (* 4. contract_type_from_txt                                                *)
 (* ====================================================================== *)
 (* for EVERY text: the identity on the listed contract types, KeyError elsewhere.  GroupConfigContract.from_yaml only
